@@ -717,12 +717,52 @@ def _check_enter_exit_semantics(ctx) -> bool:
 
 
 # ---------------------------------------------------------------------------------- registrations
+def _is_callable_literal(e: ast.AST) -> bool:
+    return isinstance(e, ast.Lambda) or (isinstance(e, ast.Call) and isinstance(e.func, ast.Name) and e.func.id == "partial" and bool(e.args))
+
+
+def registrations_of(ctx, fn: FuncInfo) -> List[Registration]:
+    """The undo registrations of one function, decoded.
+
+    ``undo = partial(..)`` followed by ``context(undo)`` is the registration of that partial.  When several
+    definitions (one per branch) flow into one ``context(undo)``, each definition stands for the registration
+    on its own branch - provided every path from the definition arrives at the call (nothing in between can
+    raise or return) and no other definition intervenes; otherwise the call is decoded as it stands."""
+    out: List[Registration] = []
+    for e in ctx.eff.own_effects(fn):
+        if e.kind != "REG":
+            continue
+        call = e.node
+        ce = call.args[0] if call.args else None
+        if isinstance(ce, ast.Name) and ce.id not in fn.nested:
+            owner, defs = ctx.inf.lookup_name(fn, ce.id)
+            real = [d for d in defs if d.kind != "aug"]
+            if owner is fn and real and len(real) == len(defs) and all(d.kind == "assign" and isinstance(d.value, ast.AST) and _is_callable_literal(d.value) for d in real):
+                if len(real) == 1:
+                    out.append(ctx.eff.decode_registration(fn, call, callable_expr=real[0].value))
+                    continue
+                g = ctx.flow.cfg(fn)
+                here = set(g.node_containing(call))
+                dnodes = {id(d): set(g.node_containing(d.value)) for d in real}
+                flows = True
+                for d in real:
+                    others = set().union(*[dnodes[id(o)] for o in real if o is not d])
+                    seen = g.reach(dnodes[id(d)], avoid=lambda n: n in here, edge_ok=lambda a, b, l, _s=dnodes[id(d)]: not (a in _s and l == "exc"))
+                    if g.exit in seen or g.rexit in seen or (others & set(seen)):
+                        flows = False
+                        break
+                if flows:
+                    for d in real:
+                        out.append(ctx.eff.decode_registration(fn, call, callable_expr=d.value, at=d.value))
+                    continue
+        out.append(ctx.eff.decode_registration(fn, call))
+    return out
+
+
 def all_registrations(ctx) -> List[Registration]:
     out = []
     for fn in ctx.prog.all_funcs():
-        for e in ctx.eff.own_effects(fn):
-            if e.kind == "REG":
-                out.append(ctx.eff.decode_registration(fn, e.node))
+        out.extend(registrations_of(ctx, fn))
     return out
 
 
